@@ -4,28 +4,35 @@
    the rewritten node has the same ordered results up to repetitions of an earlier result — Proofs/OptDD.v — with
    a bounded amount of extra fuel, fuel staying below usize::MAX) is a preorder and a congruence for every node
    constructor; the post-order walk and run_to_fixpoint lift a rewrite rule that establishes it to the whole pass
-   (Proofs/OptWalk.v); and every single rewrite of simplify_brackets, decat, unroll_loops, promote_1char_loops,
-   remove_empties and propagate_early_fails establishes it (OptBrackets, OptDecat, OptUnroll, OptPromote, OptEmpties,
-   OptFails), under the invariant qok (a loop's min <= max, its group range = the number of groups of its body, a
-   character set has at most four members, brackets satisfy the CodePointSet invariant, the body of a one-character
-   loop is a one-instruction leaf — evaluated by the driver on every IR the implementation produces), which the
-   passes preserve; relative to a set okp of well-formed positions of the text (character boundaries) among which
-   the node stays (al: every leaf started at such a position ends at one), and under hypotheses on the text at those
-   positions (text_ok: reading an element leads to a well-formed position; elements are code points; bytes and
-   elements agree below 128; a one-character step can be undone — all true of well-formed UTF-8 at character
-   boundaries, stated here as hypotheses; proved for the ASCII indexer on every byte string, where every position is
-   well-formed).
-   Refinement of nodes gives equality of the leftmost search, also after the trailing Goal is stripped (ir_top);
-   with the C02/C04 theorems (both interpreter models return exactly that search) this is the statement of C03:
-   completely for the utf16 build of the crate (c03_optimize_sound_utf16_build), and for the default build up to the
-   single rewrites of form_literal_bytes (a literal against its UTF-8 bytes), which c03_optimize_modulo_literal_bytes
-   leaves as its one hypothesis.  The whole pipeline is also compared on the implementation (optimised against
+   (Proofs/OptWalk.v); and every single rewrite of all seven passes — simplify_brackets, decat, unroll_loops,
+   promote_1char_loops, form_literal_bytes, remove_empties, propagate_early_fails — establishes it (OptBrackets,
+   OptDecat, OptUnroll, OptPromote, OptBytes, OptEmpties, OptFails), so optimize() does (c03_optimize_sound).
+   The statement is relative to
+     - the invariant qok of the node (a loop's min <= max, its group range = the number of groups of its body, a
+       character set has at most four members, brackets satisfy the CodePointSet invariant, the body of a
+       one-character loop is a one-instruction leaf), evaluated by the driver on every IR the implementation
+       produces and preserved by the passes;
+     - a set okp of well-formed positions of the text (character boundaries) among which the node stays (al: every
+       leaf started at such a position ends at one; proved for nodes without backreferences and string sets from the
+       text hypotheses, c03_simple_nodes_stay_well_formed), preserved by the passes;
+     - hypotheses on the text at those positions: text_ok (reading an element leads to a well-formed position;
+       elements are code points; bytes and elements agree below 128; a one-character step can be undone) and, for
+       form_literal_bytes only, text_enc (a scalar value read as an element is its UTF-8 encoding read as bytes).
+       All are true of well-formed UTF-8 at character boundaries; they are stated as hypotheses.  text_ok except its
+       last clause is evaluated by the driver on every generated haystack (text_ok_b, c03_text_check_sound), the last
+       clause is what the Loop1CharBody semantics checks itself; text_ok is proved for the ASCII indexer on every byte
+       string, and text_ok, text_enc and al for both indexers on ASCII text, where the theorem is left without any
+       hypothesis on the text or the node beyond qok (c03_optimize_sound_*_ascii_text).  For non-ASCII text text_enc is
+       not evaluated.
+   Refinement of nodes gives equality of the leftmost search from a well-formed start, also after the trailing Goal
+   is stripped (ir_top); with the C02/C04 theorems (both interpreter models return exactly that search) this is the
+   statement of C03 for the models.  The whole pipeline is also compared on the implementation (optimised against
    unoptimised, every generated case) on every run. *)
 From RV Require Import Base.
 From RV.Model Require Import Utf8 Indexer CodePointSet Insn IR Optimizer Unfold Emit Fold.
 From RV.Spec Require Import IRSem IRShape.
 From RV.Gen Require Import FoldTables.
-From RV.Proofs Require Import IndexerFacts OptTextAscii OptDD OptMono OptWalk OptRel OptDecat OptFails OptEmpties OptUnroll OptPromote OptBrackets OptTop.
+From RV.Proofs Require Import IndexerFacts OptTextAscii OptTextCheck OptDD OptMono OptWalk OptRel OptDecat OptFails OptEmpties OptUnroll OptPromote OptBrackets OptBytes OptTop.
 
 (* the relation is a congruence: the walk lifts a sound rewrite rule to a pass *)
 Theorem c03_walk_lifts_rewrite_rule : forall ix unicode utf16 h (okp : nat -> Prop) (func : bool -> node -> R action),
@@ -90,50 +97,125 @@ Proof.
   apply top_search_ref; assumption.
 Qed.
 
-(* optimize() of the default build: what remains is the soundness of the single rewrites of form_literal_bytes *)
-Theorem c03_optimize_modulo_literal_bytes : forall ix unicode utf16 h (okp : nat -> Prop),
-  (forall lb n a, form_literal_bytes lb n = Ok a -> PRel ix unicode utf16 h okp lb n (act_node a n)) ->
-  text_ok ix unicode h okp ->
+(* optimize(), either build *)
+Theorem c03_optimize_sound : forall ix unicode utf16 h (okp : nat -> Prop),
+  text_ok ix unicode h okp -> text_enc ix h okp ->
   forall u16 n n', optimize u16 n = Ok n' -> qok n = true -> al ix unicode utf16 h okp n ->
   exists K, forall fuel ngroups tries p r, fuel_ok (fuel + K) -> okp p ->
     ir_search ix unicode utf16 h fuel (ir_top n) ngroups tries p = Some r ->
     ir_search ix unicode utf16 h (fuel + K) (ir_top n') ngroups tries p = Some r.
 Proof.
-  intros ix unicode utf16 h okp H4 Ht u16 n n' E Hq Ha.
-  destruct (optimize_sound_if ix unicode utf16 h okp H4 Ht u16 n n' E Hq Ha) as [Hr _].
+  intros ix unicode utf16 h okp Ht He u16 n n' E Hq Ha.
+  destruct (optimize_sound ix unicode utf16 h okp Ht He u16 n n' E Hq Ha) as [Hr _].
   apply top_search_ref; assumption.
 Qed.
 
+Theorem c03_form_literal_bytes_sound : forall ix unicode utf16 h (okp : nat -> Prop),
+  text_ok ix unicode h okp -> text_enc ix h okp ->
+  forall fuel n n', run_to_fixpoint form_literal_bytes fuel n = Ok n' -> pass_ok ix unicode utf16 h okp n n'.
+Proof.
+  intros ix unicode utf16 h okp (Hk1 & _ & _ & Hb1 & Hb2 & _) (Hk0 & He1 & He2) fuel n n' E.
+  exact (literal_pass_sound ix unicode utf16 h okp Hk0 Hk1 Hb1 Hb2 He1 He2 fuel n n' E).
+Qed.
+
+(* a node without byte-level leaves, backreferences or string sets (what the parser produces for a pattern without
+   backreferences and \q{...}) stays among the well-formed positions: for such nodes the hypothesis [al] follows from
+   the text hypotheses *)
+Theorem c03_simple_nodes_stay_well_formed : forall ix unicode utf16 h (okp : nat -> Prop),
+  text_ok ix unicode h okp -> forall n, simple n = true -> al ix unicode utf16 h okp n.
+Proof.
+  intros ix unicode utf16 h okp (Hk1 & _ & _ & Hb1 & _ & _) n Hs.
+  exact (al_simple ix unicode utf16 h okp Hk1 Hb1 n Hs).
+Qed.
+
+Theorem c03_optimize_sound_utf16_build_simple : forall ix unicode utf16 h (okp : nat -> Prop),
+  text_ok ix unicode h okp ->
+  forall n n', optimize true n = Ok n' -> qok n = true -> simple n = true ->
+  exists K, forall fuel ngroups tries p r, fuel_ok (fuel + K) -> okp p ->
+    ir_search ix unicode utf16 h fuel (ir_top n) ngroups tries p = Some r ->
+    ir_search ix unicode utf16 h (fuel + K) (ir_top n') ngroups tries p = Some r.
+Proof.
+  intros ix unicode utf16 h okp Ht n n' E Hq Hs.
+  apply (c03_optimize_sound_utf16_build ix unicode utf16 h okp Ht n n' E Hq).
+  apply c03_simple_nodes_stay_well_formed; assumption.
+Qed.
+
+Theorem c03_optimize_sound_simple : forall ix unicode utf16 h (okp : nat -> Prop),
+  text_ok ix unicode h okp -> text_enc ix h okp ->
+  forall u16 n n', optimize u16 n = Ok n' -> qok n = true -> simple n = true ->
+  exists K, forall fuel ngroups tries p r, fuel_ok (fuel + K) -> okp p ->
+    ir_search ix unicode utf16 h fuel (ir_top n) ngroups tries p = Some r ->
+    ir_search ix unicode utf16 h (fuel + K) (ir_top n') ngroups tries p = Some r.
+Proof.
+  intros ix unicode utf16 h okp Ht He u16 n n' E Hq Hs.
+  apply (c03_optimize_sound ix unicode utf16 h okp Ht He u16 n n' E Hq).
+  apply c03_simple_nodes_stay_well_formed; assumption.
+Qed.
+
+(* the check the driver evaluates on every generated haystack (IRShape.text_ok_b) establishes the text hypotheses at
+   the character boundaries of that haystack — all but the one about one-character steps, which the Loop1CharBody
+   semantics checks itself wherever it takes such a step *)
+Theorem c03_text_check_sound : forall ix unicode h, text_ok_b ix h = true ->
+  (forall body fwd s q q', matches_exactly_one_char body = true -> bnd h q ->
+     single_step ix unicode h (negb fwd) body fwd = Some s -> s q = Some (Some q') -> step_inv ix h fwd q q' = true) ->
+  text_ok ix unicode h (bnd h).
+Proof. exact text_ok_b_sound. Qed.
+
+(* ---- where no UTF-8 theory is needed, nothing is left as a hypothesis ---- *)
 (* the text hypotheses hold of every byte string read through the ASCII indexer (the *_ascii entry points), every
-   position being well-formed, and every node stays among them ... *)
-Theorem c03_text_ok_ascii : forall h, bytes_ok h -> forall unicode, text_ok ascii_indexer unicode h (fun _ => True).
+   position of the text being well-formed, and every node stays inside the text *)
+Theorem c03_text_ok_ascii : forall h, bytes_ok h -> forall unicode, text_ok ascii_indexer unicode h (inside h).
 Proof. exact text_ok_ascii. Qed.
 
-(* ... so there the statement needs no hypothesis on the text or the node beyond qok *)
+(* the utf16 build through the ASCII indexer, any byte string *)
 Theorem c03_optimize_sound_utf16_build_ascii : forall unicode utf16 h, bytes_ok h ->
   forall n n', optimize true n = Ok n' -> qok n = true ->
-  exists K, forall fuel ngroups tries p r, fuel_ok (fuel + K) ->
+  exists K, forall fuel ngroups tries p r, fuel_ok (fuel + K) -> (p <= length h)%nat ->
     ir_search ascii_indexer unicode utf16 h fuel (ir_top n) ngroups tries p = Some r ->
     ir_search ascii_indexer unicode utf16 h (fuel + K) (ir_top n') ngroups tries p = Some r.
 Proof.
   intros unicode utf16 h Hb n n' E Hq.
-  destruct (c03_optimize_sound_utf16_build ascii_indexer unicode utf16 h (fun _ => True) (text_ok_ascii h Hb unicode)
-              n n' E Hq (al_all_ascii h unicode utf16 n)) as [K HK].
-  exists K. intros fuel ngroups tries p r Hf Es. exact (HK fuel ngroups tries p r Hf I Es).
+  exact (c03_optimize_sound_utf16_build ascii_indexer unicode utf16 h (inside h) (text_ok_ascii h Hb unicode)
+           n n' E Hq (al_all_ascii h unicode utf16 n)).
+Qed.
+
+(* either build, the ASCII indexer on ASCII text *)
+Theorem c03_optimize_sound_ascii_indexer_ascii_text : forall unicode utf16 h, Forall (fun b => b < 128) h ->
+  forall u16 n n', optimize u16 n = Ok n' -> qok n = true ->
+  exists K, forall fuel ngroups tries p r, fuel_ok (fuel + K) -> (p <= length h)%nat ->
+    ir_search ascii_indexer unicode utf16 h fuel (ir_top n) ngroups tries p = Some r ->
+    ir_search ascii_indexer unicode utf16 h (fuel + K) (ir_top n') ngroups tries p = Some r.
+Proof.
+  intros unicode utf16 h Ha u16 n n' E Hq.
+  exact (c03_optimize_sound ascii_indexer unicode utf16 h (inside h) (text_ok_ascii h (ascii_bytes_ok h Ha) unicode)
+           (text_enc_ascii h Ha) u16 n n' E Hq (al_all_ascii h unicode utf16 n)).
+Qed.
+
+(* either build, the UTF-8 indexer on ASCII text *)
+Theorem c03_optimize_sound_utf8_indexer_ascii_text : forall fold unicode utf16 h, Forall (fun b => b < 128) h ->
+  forall u16 n n', optimize u16 n = Ok n' -> qok n = true ->
+  exists K, forall fuel ngroups tries p r, fuel_ok (fuel + K) -> (p <= length h)%nat ->
+    ir_search (utf8_indexer fold) unicode utf16 h fuel (ir_top n) ngroups tries p = Some r ->
+    ir_search (utf8_indexer fold) unicode utf16 h (fuel + K) (ir_top n') ngroups tries p = Some r.
+Proof.
+  intros fold unicode utf16 h Ha u16 n n' E Hq.
+  exact (c03_optimize_sound (utf8_indexer fold) unicode utf16 h (inside h) (text_ok_utf8_on_ascii fold h Ha unicode)
+           (text_enc_utf8_on_ascii fold h Ha) u16 n n' E Hq (al_all_utf8_on_ascii fold h unicode utf16 n)).
 Qed.
 
 (* Non-vacuity: (?:a{2,3}|)[xy](?:) — a loop that unroll_loops and promote_1char_loops rewrite, a bracket that
    simplify_brackets reduces, an empty alternative and an empty group that decat and remove_empties clean up; the
-   invariant holds, optimize (utf16 build) runs and changes the node, and the search over the result agrees. *)
+   invariant holds, the node is simple, optimize (default build, literal bytes included) runs and changes the node, and the search over the result agrees. *)
 Definition c03_node : node :=
   NCat [NAlt (NLoop (NChar 97) 2 (Some 3) true 0 0) (NCat []); NBracket (mkBracket false [(120, 121)]); NCat []; NGoal].
 Example c03_example :
   qok c03_node = true /\
-  (exists n', optimize true c03_node = Ok n' /\ n' <> c03_node /\
+  simple c03_node = true /\
+  (exists n', optimize false c03_node = Ok n' /\ n' <> c03_node /\
      ir_search (utf8_indexer fold_code_point) false false [97; 97; 97; 120] 30 (ir_top c03_node) 0 5 0 =
      ir_search (utf8_indexer fold_code_point) false false [97; 97; 97; 120] 30 (ir_top n') 0 5 0 /\
      ir_search (utf8_indexer fold_code_point) false false [97; 97; 97; 120] 30 (ir_top n') 0 5 0 = Some (Some (0, 4, []))%nat).
 Proof.
-  split; [reflexivity|]. eexists.
+  split; [reflexivity|]. split; [reflexivity|]. eexists.
   split; [vm_compute; reflexivity|]. split; [discriminate|]. split; vm_compute; reflexivity.
 Qed.
